@@ -83,7 +83,7 @@ def canon_map(m, drop=()):
 
 
 # ------------------------------------------------------------------ generator
-BIG = [False]      # thorough tier: ints up to CPython's 4300-digit str() limit
+BIG = [False, .05]  # [thorough tier: ints up to CPython's 4300-digit str() limit, probability of a long int]
 
 
 def gen_int(r):
@@ -92,7 +92,7 @@ def gen_int(r):
         return r.choice([0, 1, -1, 2, 10, -10, 255, 2**31, -2**31, 2**63, 2**64, -2**63 - 1, 10**18, 7, 42])
     if k < .7:
         return r.randrange(-10**6, 10**6)
-    if k < .95:
+    if k < 1 - BIG[1]:
         n = r.randrange(10**r.randrange(1, 60))
         return -n if r.random() < .4 else n
     d = r.choice([100, 640, 1000]) if not BIG[0] else r.choice([1000, 2500, 4000, 4299, 4300])
@@ -580,7 +580,8 @@ def gen_codec_item(r):
         e = r.random()
         if e < .5:
             n = gen_int(r)
-            s = r.choice(["%d", "%d", "+%d", "0%d", "000%d"]) % abs(n)
+            # CPython refuses int() of a str with more than 4300 digit characters (leading zeros count): language limit
+            s = r.choice(["%d", "%d", "+%d", "0%d", "000%d"] if abs(n) < 10**4200 else ["%d", "+%d"]) % abs(n)
             s = ("-" + s.lstrip("+")) if n < 0 else s
         elif e < .7:
             s = r.choice(["", "-", "+", "--1", "1-", "-0", "+0", "00", "12a", "0x10", "1.0", "1e3", "1,0", "-+1", "+-1", "9" * 30])
@@ -737,14 +738,16 @@ def run(ctx):
     if cc:
         explore(ctx, rep, [c for _, c in cc], "corpus")
     r = ctx.sub_rng("gen")
-    BIG[0] = not ctx.quick
-    cases = [gen_case(r) for _ in range(ctx.n(420, 12000))]
+    BIG[:] = [False, .05] if ctx.quick else [True, .004]     # each scenario re-encodes a long int ~10 times inside Coq
+    cases = [gen_case(r) for _ in range(ctx.n(420, 6000))]
     broken = explore(ctx, rep, cases, "main")
-    broken = explore_codec(ctx, rep, ctx.sub_rng("codec"), ctx.n(80, 2000), "codec") or broken
+    BIG[:] = [not ctx.quick, .05]
+    broken = explore_codec(ctx, rep, ctx.sub_rng("codec"), ctx.n(80, 800), "codec") or broken
+    BIG[:] = [False, .05]
     lower_table_obligation(rep)
     if (broken or any(not o["ok"] for o in rep.obligations)) and not rep.failures:
         r2 = ctx.sub_rng("search")
-        explore(ctx, rep, [gen_case(r2) for _ in range(ctx.n(2500, 20000))], "search")
+        explore(ctx, rep, [gen_case(r2) for _ in range(ctx.n(2500, 8000))], "search")
     return rep.finish(SIGNATURES)
 
 
